@@ -128,7 +128,9 @@ impl Sym {
         let mut users = Vec::new();
         let mut user_sym = HashMap::new();
         for i in 1..=8u8 {
-            let sk = SecretKey::from_slice(&[i; 32]).unwrap();
+            // user 2's key is the negation of user 1's: same x coordinate, other parity byte (two distinct users whose
+            // identifiers differ in one byte only; seeded change c06c-1)
+            let sk = if i == 2 { SecretKey::from_slice(&[1u8; 32]).unwrap().negate() } else { SecretKey::from_slice(&[i; 32]).unwrap() };
             let pk = PublicKey::from_secret_key(&secp, &sk);
             user_sym.insert(pk.serialize().to_vec(), i as i64);
             users.push((sk, pk));
